@@ -4,6 +4,57 @@ Helper lemmas for the partition bookkeeping of C01 (membership level, core Lean 
 -/
 namespace PyYetiVerif.SuPartition
 
+theorem mem_insertSorted {a g : Nat} {l : List Nat} : g ∈ insertSorted a l ↔ g = a ∨ g ∈ l := by
+  induction l with
+  | nil => simp [insertSorted]
+  | cons b r ih =>
+    unfold insertSorted
+    split
+    · simp
+    · simp only [List.mem_cons, ih]
+      constructor
+      · rintro (h | h | h)
+        · exact Or.inr (Or.inl h)
+        · exact Or.inl h
+        · exact Or.inr (Or.inr h)
+      · rintro (h | h | h)
+        · exact Or.inr (Or.inl h)
+        · exact Or.inl h
+        · exact Or.inr (Or.inr h)
+
+theorem mem_sortNat {g : Nat} {l : List Nat} : g ∈ sortNat l ↔ g ∈ l := by
+  induction l with
+  | nil => simp [sortNat]
+  | cons a r ih =>
+    show g ∈ insertSorted a (sortNat r) ↔ _
+    rw [mem_insertSorted, ih, List.mem_cons]
+
+theorem insertSorted_pairwise {a : Nat} {l : List Nat} (h : l.Pairwise (· ≤ ·)) :
+    (insertSorted a l).Pairwise (· ≤ ·) := by
+  induction l with
+  | nil => simp [insertSorted]
+  | cons b r ih =>
+    unfold insertSorted
+    split
+    · rename_i hab
+      refine List.Pairwise.cons ?_ h
+      intro x hx
+      rcases List.mem_cons.1 hx with rfl | hx
+      · exact hab
+      · exact Nat.le_trans hab (List.rel_of_pairwise_cons h hx)
+    · rename_i hab
+      refine List.Pairwise.cons ?_ (ih h.of_cons)
+      intro x hx
+      rcases mem_insertSorted.1 hx with rfl | hx
+      · omega
+      · exact List.rel_of_pairwise_cons h hx
+
+/-- `np.sort` returns an ascending list -/
+theorem sortNat_pairwise (l : List Nat) : (sortNat l).Pairwise (· ≤ ·) := by
+  induction l with
+  | nil => simp [sortNat]
+  | cons a r ih => exact insertSorted_pairwise ih
+
 theorem mem_nonrf {n g : Nat} {rf : List Nat} : g ∈ nonrf n rf ↔ g < n ∧ g ∉ rf := by
   simp [nonrf]
 
